@@ -144,6 +144,7 @@ def _hand_specs():
         # SUTRA writer only (its own code): average of the absolute production well flow rates
         'SUMMARY OF RESULTS||Lifetime Average Well Flow Rate': lambda s, e: [float(np.average(np.abs(np.asarray(s['wellbores']['ProductionWellFlowRates'].value, dtype=float))))],
         'ENGINEERING PARAMETERS||Lifetime Average Well Flow Rate': lambda s, e: [float(np.average(np.abs(np.asarray(s['wellbores']['ProductionWellFlowRates'].value, dtype=float))))],
+        'ECONOMIC PARAMETERS||Project Payback Period': lambda s, e: [_v(s, 'economics', 'ProjectPaybackPeriod')] if e['unit'] == 'yr' else [],
         'SUMMARY OF RESULTS||Total Avoided Carbon Emissions': lambda s, e: [_v(s, 'economics', 'CarbonThatWouldHaveBeenProducedTotal') *
                                                                             (0.45359237e-6 if e['unit'] == 'kilotonne' else 1.0)] if e['unit'] in ('kilotonne', 'pound') else [],
     }
@@ -266,6 +267,17 @@ def evaluate(case, rec):
             continue
         key = f'{sec}||{e["label"]}'
         spec = lm.get(key)
+        if key == 'ECONOMIC PARAMETERS||Project Payback Period' and e['value'] is None:
+            # 'N/A' stands for "no payback": the computed period must then be absent (<= 0)
+            try:
+                pb = _v(s, 'economics', 'ProjectPaybackPeriod')
+            except (KeyError, TypeError, ValueError):
+                continue
+            n_checked += 1
+            if 'N/A' not in e['raw'] or pb > 0.0:
+                bad('scalar_line', {'section': sec, 'label': e['label'], 'printed': e['raw'].strip(), 'quantity': 'hand specification', 'computed': pb,
+                                    'line': e['raw'].strip()}, section=sec, label=e['label'])
+            continue
         if key in HAND and e['value'] is not None:
             try:
                 wants = HAND[key](s, e)
